@@ -94,6 +94,13 @@ type VAbsArr struct {
 	Name  string
 	// ElemGen, if set, produces the value of a not yet materialised cell.
 	ElemGen func(st *State, idx Term) Value
+	// CmdKinds records the StoreKinds of the *t_aio.Command values stored into this
+	// array (ghost; survives loop havoc because every stored element was checked).
+	CmdKinds map[int64]bool
+	// AwaitKinds: kinds of awaitables stored into this array (see analysis.go)
+	AwaitKinds map[string]bool
+	// Havocked: the cells were forgotten at a loop; nothing is known about elements read back
+	Havocked bool
 }
 
 type VIface struct {
